@@ -41,6 +41,11 @@ type Profile struct {
 	// BigValues shifts the value-length distribution upwards (more flushes,
 	// more files, deeper LSMs).
 	BigValues bool
+	// FlushBeforeIngest makes the generator flush before an ingest/excise
+	// whenever anything was written since the last flush (the memtable may be
+	// non-empty), whether or not those writes were synced. Used to exclude the
+	// known finding C13/orgd-ingest-visible-without-earlier-unflushed-writes.
+	FlushBeforeIngest bool
 }
 
 type wchoice struct {
@@ -93,7 +98,19 @@ type gen struct {
 	ibOps   map[int][]Op
 	steps   []Step
 	unsyncd bool
-	fmvNow  int
+	// memDirty: something was committed since the last flush.
+	memDirty bool
+	fmvNow   int
+}
+
+// preStructural inserts the flush that the profile demands before an
+// ingest/excise (see Profile.DurableIngest, Profile.FlushBeforeIngest).
+func (g *gen) preStructural() {
+	if (g.p.DurableIngest && g.unsyncd) || (g.p.FlushBeforeIngest && g.memDirty) {
+		g.steps = append(g.steps, Step{K: "flush", Flag: true})
+		g.unsyncd = false
+		g.memDirty = false
+	}
 }
 
 func drawInt(g *gen, label string, lo, hi int) int { return rapid.IntRange(lo, hi).Draw(g.t, label) }
@@ -231,6 +248,7 @@ func (g *gen) writeOp(label string, longLived bool) Op {
 }
 
 func (g *gen) commitOps(ops []Op) {
+	g.memDirty = true
 	for _, o := range ops {
 		g.sdNote(o)
 	}
@@ -608,12 +626,16 @@ func (g *gen) step(label string) {
 		s.Sync = g.drawSync(label)
 		s.NoSyncWait = rapid.IntRange(0, 5).Draw(g.t, label+"nsw") == 0
 		g.st = g.st.Apply(s.Ops)
+		g.memDirty = true
 	case "flush", "wait", "restart":
 		if kind == "restart" {
 			g.snaps, g.iters, g.ibs, g.efos = nil, nil, nil, nil
 		}
 		if kind != "wait" {
 			g.unsyncd = false
+		}
+		if kind == "flush" {
+			g.memDirty = false
 		}
 	case "compact":
 		s.A, s.B = g.span(label + "sp")
@@ -627,10 +649,7 @@ func (g *gen) step(label string) {
 			s.K = "wait"
 			break
 		}
-		if g.p.DurableIngest && g.unsyncd {
-			g.steps = append(g.steps, Step{K: "flush"})
-			g.unsyncd = false
-		}
+		g.preStructural()
 		exA, exB := "", ""
 		if kind == "ingestexcise" {
 			s.A, s.B = g.span(label + "ex")
@@ -653,10 +672,7 @@ func (g *gen) step(label string) {
 			}
 		}
 	case "excise":
-		if g.p.DurableIngest && g.unsyncd {
-			g.steps = append(g.steps, Step{K: "flush"})
-			g.unsyncd = false
-		}
+		g.preStructural()
 		s.A, s.B = g.span(label + "ex")
 		n := g.st.clone()
 		n.exciseSpan(s.A, s.B)
